@@ -4,7 +4,7 @@ import vt
 vt.use_repo()
 warnings.simplefilter('ignore')
 from vt.api import cond, deep, fam, tier
-from vt.absbytes import LenSeq
+from vt.absbytes import LenSeq, LenFile
 from vt.harness import assoc as A
 from vt.harness.c06 import check_stream, take, _StubDsutils, K
 from pynetdicom2 import dimsemessages as dm, pdu
@@ -12,15 +12,16 @@ from pynetdicom2 import dimsemessages as dm, pdu
 ASSUMPTIONS = [
     'local configured maximum A in [7, 2^32) (documented domain: a maximum that can carry one payload byte); peer-'
     'announced maximum P = 0 (no limit) or in [7, 2^32); both symbolic integers, no grid',
-    'association objects built without provider thread; dul.receive scripted; data and command set are LenSeq stand-ins',
+    'association objects built without provider thread; dul.receive scripted; data and command set are LenSeq stand-ins '
+    '(data as bytes or as a seekable file, symbolic); the A-ASSOCIATE PDUs pass through the real encode/decode',
 ]
 
 
-def send_and_check(asc, P, A_, C, L):
+def send_and_check(asc, P, A_, C, L, as_file=False):
     """Send one message with command length C and data length L; every PDU must respect the peer's limit P."""
     limit = asc.max_pdu_length
     msg = dm.CStoreRQMessage()
-    msg.data_set = LenSeq(L)
+    msg.data_set = LenFile(L) if as_file else LenSeq(L)
     _StubDsutils.C = C
     old = dm.dsutils
     dm.dsutils = _StubDsutils
@@ -49,7 +50,7 @@ def _lim(A_, P):
 @cond(bounds='acceptor: configured maximum A in [7, 2^32), requestor-announced P in {0} u [7, 2^32), then one message '
              'with command length C and data length L up to K fragments of the resulting limit - all symbolic',
       timeout=180)
-def acceptor_maxlen(A_: int, P: int, C: int, L: int) -> bool:
+def acceptor_maxlen(A_: int, P: int, C: int, L: int, as_file: bool) -> bool:
     """
     pre: 7 <= A_ <= 0xFFFFFFFF and (P == 0 or 7 <= P <= 0xFFFFFFFF)
     pre: 1 <= C <= 2 * (_lim(A_, P) - 6) and 1 <= L <= K() * (_lim(A_, P) - 6)
@@ -58,19 +59,20 @@ def acceptor_maxlen(A_: int, P: int, C: int, L: int) -> bool:
     ae = A.StubAE('SCP', supported_ts=['1.2.840.10008.1.2'])
     acc = A.make_acceptor(ae, A_)
     rq = pdu.AAssociateRqPDU('SCP', 'SCU', [pdu.ApplicationContextItem(A.APP_CTX), A.user_info(P)])
+    rq = pdu.AAssociateRqPDU.decode(rq.encode())          # the peer's value arrives over the wire
     acc.accept(rq)
-    reply = acc.dul.sent[0]
+    reply = pdu.AAssociateAcPDU.decode(acc.dul.sent[0].encode())   # and the reply leaves over it
     announced = A.find_maxlen(reply)
     # announces a value it is itself prepared to receive: its configured maximum or less (0 would mean "no limit")
     ok = announced is not None and 1 <= announced <= A_
-    ok = ok and send_and_check(acc, P, A_, C, L)
+    ok = ok and send_and_check(acc, P, A_, C, L, as_file)
     deep(ok and P == 0 and L > A_)
     return ok
 
 
 @cond(bounds='requestor: configured maximum A in [7, 2^32), acceptor-announced P in {0} u [7, 2^32), then one message as '
              'above - all symbolic', timeout=180)
-def requester_maxlen(A_: int, P: int, C: int, L: int) -> bool:
+def requester_maxlen(A_: int, P: int, C: int, L: int, as_file: bool) -> bool:
     """
     pre: 7 <= A_ <= 0xFFFFFFFF and (P == 0 or 7 <= P <= 0xFFFFFFFF)
     pre: 1 <= C <= 2 * (_lim(A_, P) - 6) and 1 <= L <= K() * (_lim(A_, P) - 6)
@@ -78,12 +80,13 @@ def requester_maxlen(A_: int, P: int, C: int, L: int) -> bool:
     """
     ae = A.StubAE('SCU')
     ac = pdu.AAssociateAcPDU('SCP', 'SCU', [pdu.ApplicationContextItem(A.APP_CTX), A.user_info(P)])
+    ac = pdu.AAssociateAcPDU.decode(ac.encode())          # the peer's value arrives over the wire
     rq = A.make_requester(ae, A_, {'aet': 'SCP', 'address': 'h', 'port': 104}, [ac])
     rq.request()
-    sent_rq = rq.dul.sent[0]
+    sent_rq = pdu.AAssociateRqPDU.decode(rq.dul.sent[0].encode())
     announced = A.find_maxlen(sent_rq)
     ok = announced is not None and 1 <= announced <= A_
-    ok = ok and send_and_check(rq, P, A_, C, L)
+    ok = ok and send_and_check(rq, P, A_, C, L, as_file)
     deep(ok and P == 0 and L > A_)
     return ok
 
